@@ -48,18 +48,21 @@ func VerifyEntryAuthor(e logac.LogEntry, p identityprovider.Interface) error {
 		}
 	}
 
-	if signed, ok := e.(interface{ GetSig() []byte }); ok {
-		if err := canonicalSignature(signed.GetSig()); err != nil {
-			return fmt.Errorf("entry signature: %w", err)
-		}
-	}
-
 	if identity.Type != "orbitdb" {
 		if p == nil || p.GetType() != identity.Type {
 			return fmt.Errorf("identity of type %q cannot be verified", identity.Type)
 		}
 
 		return p.VerifyIdentity(identity)
+	}
+
+	// (the canonical form is a rule about the ECDSA signatures of "orbitdb"
+	// identities: another provider signs with its own scheme, which need not
+	// even be DER encoded, and answers for it itself)
+	if signed, ok := e.(interface{ GetSig() []byte }); ok {
+		if err := canonicalSignature(signed.GetSig()); err != nil {
+			return fmt.Errorf("entry signature: %w", err)
+		}
 	}
 
 	if identity.Signatures == nil {
